@@ -35,6 +35,12 @@ var allowPrefixes = []string{
 	"(*github.com/cometbft/cometbft/proto/tendermint/types.",
 	"github.com/cosmos/cosmos-sdk/x/bank/types.NewInput",
 	"github.com/cosmos/cosmos-sdk/x/bank/types.NewOutput",
+	"github.com/ethereum/go-ethereum/common.RightPadBytes",
+	"github.com/ethereum/go-ethereum/common.LeftPadBytes",
+	"github.com/ethereum/go-ethereum/common.CopyBytes",
+	"github.com/ethereum/go-ethereum/common.TrimLeftZeroes",
+	"github.com/ethereum/go-ethereum/common.TrimRightZeroes",
+	"github.com/tellor-io/",
 	"slices.",
 	"sort.Sort",
 	"sort.Stable",
